@@ -112,7 +112,11 @@ impl Sub for ModelRoundTrip {
     }
     fn check(&self, case: &ModelCase, ctx: &mut Ctx) -> Result<(), String> {
         let spec = &case.spec;
-        let mut m = train(spec, false)?;
+        let mut m = match train(spec, false) {
+            Ok(m) => m,
+            Err(e) if crate::props::trainc::is_timeout(&e, ctx) => return Ok(()),
+            Err(e) => return Err(e),
+        };
         for op in &case.before {
             match op {
                 MOp::Gen => {
